@@ -220,6 +220,30 @@ func runFlatten(c *Ctx, fc flatCase, label string) {
 	v.FieldByName("Tag").Set(reflect.ValueOf(vocab.ItemCollection{&vocab.Object{ID: "https://example.com/flat/tag", Type: vocab.NoteType}}))
 	v.FieldByName("Attachment").Set(reflect.ValueOf(vocab.Item(&vocab.Object{ID: "https://example.com/flat/att", Type: vocab.ImageType})))
 	v.FieldByName("InReplyTo").Set(reflect.ValueOf(vocab.Item(&vocab.Object{ID: "https://example.com/flat/irt", Type: vocab.NoteType})))
+	// ... including every item-valued property the kind declares beyond the flattened positions (a question's options, an actor's
+	// collections, what a relationship relates, what a profile describes): an embedded object with an id, or a list of one
+	{
+		flatPos := map[string]bool{}
+		for _, f := range flatItemFields {
+			flatPos[f] = true
+		}
+		for _, f := range flatListFields {
+			flatPos[f] = true
+		}
+		for i := 0; i < v.NumField(); i++ {
+			sf := v.Type().Field(i)
+			if !sf.IsExported() || flatPos[sf.Name] || !v.Field(i).IsZero() {
+				continue
+			}
+			other := &vocab.Object{ID: vocab.IRI("https://example.com/flat/other/" + sf.Name), Type: vocab.NoteType}
+			switch {
+			case sf.Type == vmodel.IcT:
+				v.Field(i).Set(reflect.ValueOf(vocab.ItemCollection{other}))
+			case vmodel.IsItemType(sf.Type):
+				v.Field(i).Set(reflect.ValueOf(vocab.Item(other)))
+			}
+		}
+	}
 	for f, it := range fc.Items {
 		fv := v.FieldByName(f)
 		if !fv.IsValid() {
@@ -447,7 +471,7 @@ var flatTargets = func() []flatTarget {
 }()
 
 // list arrangements: all sequences of length <= 4 over these tokens
-var flatListTokens = []string{"objA", "iriA", "objB", "noid", "noid2", "nil", "link", "iriC", "link-hashtag", "link-untyped"}
+var flatListTokens = []string{"objA", "iriA", "objB", "noid", "noid2", "nil", "link", "iriC", "link-hashtag", "link-untyped", "public-compact"}
 
 // wider token set for the random layer: every object kind as a list member too
 var flatListTokensWide = func() []string {
@@ -490,6 +514,8 @@ func flatListItem(tok string) vocab.Item {
 		return &vocab.Link{ID: "https://example.com/flat/H", Type: "Hashtag", Href: "https://example.com/tags/go"}
 	case "link-untyped":
 		return &vocab.Link{Href: "https://example.com/flat/untyped-href"}
+	case "public-compact":
+		return vocab.IRI("as:Public") // the public collection under its compact name: a plain IRI like any other
 	}
 	panic(tok)
 }
